@@ -1,4 +1,5 @@
 import SelenModel.Lemmas.Limits
+import SelenModel.Model.Validate
 /-
 Determinism (C16): list models of the places where the Rust code keeps data in a
 `HashMap`/`HashSet` (std `RandomState`: per-process, per-thread, per-map random SipHash keys, so
@@ -104,8 +105,6 @@ theorem allIds_perm_invariant {l l' : List Entry} (h : l.Perm l') : allIds l = a
 /-! ### 2. hash sets used through `insert` / `contains` / `len` only -/
 
 /-- `HashSet::insert` on a list representation (new elements go anywhere: here, in front) -/
-def hsInsert (s : List Int) (x : Int) : List Int := if x ∈ s then s else x :: s
-
 theorem hsInsert_perm {s s' : List Int} (h : s.Perm s') (x : Int) : (hsInsert s x).Perm (hsInsert s' x) := by
   unfold hsInsert
   by_cases hx : x ∈ s
@@ -113,8 +112,6 @@ theorem hsInsert_perm {s s' : List Int} (h : s.Perm s') (x : Int) : (hsInsert s 
   · rw [if_neg hx, if_neg (fun hc => hx (h.mem_iff.2 hc))]; exact h.cons x
 
 /-- insert all values of a domain -/
-def insAll (s : List Int) (d : List Int) : List Int := d.foldl hsInsert s
-
 theorem insAll_perm {s s' : List Int} (h : s.Perm s') (d : List Int) : (insAll s d).Perm (insAll s' d) := by
   induction d generalizing s s' with
   | nil => exact h
@@ -130,26 +127,6 @@ theorem unionCount_perm_invariant {s s' : List Int} (h : s.Perm s') (ds : List (
     | nil => intro s s' h; exact h
     | cons d ds ih => intro s s' h; exact ih _ _ (insAll_perm h d)
   exact (this ds s s' h).length_eq
-
-/-- verdict of `validate_alldiff_constraints` for one constraint -/
-inductive ADVerdict where
-  | ok
-  /-- "two variables fixed to the same value: v" -/
-  | dupFixed (v : Int)
-  /-- "requires n distinct values, but only k distinct values are available" -/
-  | tooFew (need have_ : Nat)
-deriving DecidableEq, Repr
-
-/-- the scan over the constraint's variables (in the constraint's own order); `none` is a float
-variable (skipped), `some d` the current values of an integer variable.  `fixed` and `all` are
-the two hash sets, as lists in whatever order. -/
-def adScan (n : Nat) : List (Option (List Int)) → List Int → List Int → ADVerdict
-  | [], _, all => if all.length < n then .tooFew n all.length else .ok
-  | none :: ds, fixed, all => adScan n ds fixed all
-  | some d :: ds, fixed, all =>
-    match d with
-    | [v] => if v ∈ fixed then .dupFixed v else adScan n ds (hsInsert fixed v) (insAll all d)
-    | _ => adScan n ds fixed (insAll all d)
 
 theorem adScan_perm_invariant (n : Nat) (ds : List (Option (List Int))) :
     ∀ (fixed fixed' all all' : List Int), fixed.Perm fixed' → all.Perm all' →
